@@ -485,7 +485,7 @@ func (e *evaluator) reportInformational() {
 			n += cnt
 		}
 		sort.Strings(ws)
-		e.c.Note("informational (consistent re-encoding of an unsigned wrapper + recomputed id, outside the property's quantifier; no signed field of another part pins this id): %s accepted %d such mutants: %s", k, n, strings.Join(ws, ", "))
+		e.c.Note("informational, never flagged (outside the property's quantifier: every hash and signature verifies and no signed field of another part pins the edited id / field): %s — %d accepted: %s", k, n, strings.Join(ws, ", "))
 	}
 }
 
